@@ -4,6 +4,7 @@
 #include "TasmanianSparseGrid.hpp"
 #include "fpsym.h"
 #include <map>
+#include <algorithm>
 #include <set>
 #include "tsgRuleLocalPolynomial.hpp"
 #include <sstream>
@@ -43,7 +44,7 @@ static void makeGrid(TasmanianSparseGrid &grid, const GridSpec &g){
 // the "model": a fresh symbolic value per (grid point, output), remembered by coordinates so that the same
 // point always carries the same symbols; `generation` lets a reload supply different values
 struct SymModel {
-  int outputs; int next_id; double lo, hi; bool symbolic;
+  int outputs; int next_id; double lo, hi; bool symbolic; bool zeroed = false;   // zeroed: every known value is the constant zero (after mergeRefinement)
   std::map<std::vector<double>, std::vector<double>> table; // coordinates -> values (shadows travel with the doubles)
   std::map<std::vector<double>, int> first_id;
   SymModel(int outs, int base_id = 1000, double l = -1.0, double h = 1.0, bool sym = true) : outputs(outs), next_id(base_id), lo(l), hi(h), symbolic(sym) {}
@@ -52,7 +53,7 @@ struct SymModel {
     auto it = table.find(x);
     if (it != table.end()) return it->second;
     std::vector<double> v(outputs);
-    first_id[x] = next_id;
+    first_id[x] = next_id; zeroed = false;
     for (int k=0;k<outputs;k++){ double d = dflt(x, k); if (d < lo) d = lo; if (d > hi) d = hi; v[k] = symbolic ? fpsym_symbolic(d, next_id, lo, hi) : d; next_id++; }
     return table.emplace(x, v).first->second;
   }
@@ -93,6 +94,34 @@ static int lpKid(RuleLocal::erule r, int p, int k){
     case erule::semilocalp: return RuleLocal::getKid<erule::semilocalp>(p, k);
     case erule::localp0: return RuleLocal::getKid<erule::localp0>(p, k);
     default: return RuleLocal::getKid<erule::localpb>(p, k);
+  }
+}
+// A history chosen by the solver: `steps` steps, each a symbolic integer over {nothing, load / overwrite, pending refinement, merge, update,
+// begin construction + two samples, finish construction}; steps that are not valid in the current state do nothing. The path explorer enumerates the alternatives.
+static void solverChosenHistory(TasmanianSparseGrid &grid, const GridSpec &g, SymModel &model, int steps, int idbase){
+  int d = g.dims, outs = g.outputs; bool local = grid.isLocalPolynomial() || grid.isWavelet(); bool nested = !OneDimensionalMeta::isNonNested(grid.getRule());
+  for (int stepi = 0; stepi < steps; stepi++){
+    int pick = fpsym_choice(idbase + stepi, 7, (2 * stepi + 1) % 7);
+    fpsym_note(("history_step_" + std::to_string(idbase + stepi)).c_str(), pick);
+    bool constructing = grid.isUsingConstruction();
+    if (pick == 1 && !constructing){
+      if (grid.getNumNeeded() > 0) grid.loadNeededValues(model.values(grid.getNeededPoints(), d));
+      else if (grid.getNumLoaded() > 0){ model.renew(); model.next_id = 2000 + 300 * (idbase + stepi); grid.loadNeededValues(model.values(grid.getLoadedPoints(), d)); }   // overwrite every value with fresh symbols (the model now describes the new values)
+    } else if (pick == 2 && !constructing && nested && grid.getNumLoaded() > 0){
+      if (local) grid.setSurplusRefinement(0.0, refine_classic, -1, g.ll); else grid.setAnisotropicRefinement(type_iptotal, 2, 0, g.ll);
+    } else if (pick == 3 && !constructing && grid.getNumLoaded() > 0){
+      bool had = grid.getNumNeeded() > 0; grid.mergeRefinement();
+      if (had){ // documented: after a merge every value is zero (the model now describes those values)
+        model.table.clear(); model.zeroed = true; std::vector<double> lp = grid.getLoadedPoints();
+        for (size_t i=0;i+d<=lp.size();i+=d) model.table[std::vector<double>(lp.begin() + i, lp.begin() + i + d)] = std::vector<double>(outs, 0.0); }
+    } else if (pick == 4 && !constructing && !local){ grid.updateGrid(g.depth + 1, IO::getDepthTypeString(g.type), g.aw, g.ll);
+    } else if (pick == 5 && nested){
+      if (!constructing) grid.beginConstruction();
+      std::vector<double> cand = local ? grid.getCandidateConstructionPoints(0.0, refine_classic, -1, g.ll) : grid.getCandidateConstructionPoints(type_level, 0, g.ll);
+      std::vector<std::vector<double>> cp; for (size_t i=0;i+d<=cand.size();i+=d) cp.push_back(std::vector<double>(cand.begin() + i, cand.begin() + i + d)); std::sort(cp.begin(), cp.end());
+      size_t take = std::min<size_t>(cp.size(), 2); std::vector<double> x; for (size_t i=0;i<take;i++) x.insert(x.end(), cp[cp.size() - 1 - i].begin(), cp[cp.size() - 1 - i].end());   // the lexicographically last ones: often not connected yet
+      if (take) grid.loadConstructedPoints(x, model.values(x, d));
+    } else if (pick == 6 && constructing){ grid.finishConstruction(); }
   }
 }
 // every loaded point has all of its hierarchical parents loaded
